@@ -318,7 +318,7 @@ func checkC16(c *Ctx) {
 	r.Rule("C16.b", "the only file write gets the complete translation; no other file-mutating API", 3)
 	r.Rule("C16.c", "single recover site, non-zero exit, deferred first in the success branch, no goroutines", 5)
 	r.Rule("C16.d", "hand-written loops: exit at end of input and progress", 30)
-	r.Rule("C16.g", "a recursive pass never applies the recursion twice to the same child on one path (time would be exponential in the nesting depth)", 100)
+	r.Rule("C16.g", "a recursive pass never applies the recursion twice to the same child on one path (time would be exponential in the nesting depth)", 70)
 	r.Rule("C16.h", "a String/Error/GoString/Format method never hands its own receiver to a formatter (fmt would call it again: stack overflow, no diagnostic)", 40)
 	checkFormattingMethodsDoNotReenter(c, "C16.h")
 	r.Rule("C16.r", "every function of fc that can reach itself is in the reviewed inventory of recursive functions, each with a termination argument on record (consumes input, strict sub-term, guarded unfolding, explicit bound); a newly recursive function is undecided", 30)
